@@ -51,6 +51,9 @@ void sim_env_set(SimEnv* e);
 extern void (*sim_yield_hook)(SimEnv*);
 /* called when the step budget is exceeded (never returns) */
 extern void (*sim_budget_hook)(SimEnv*);
+/* installed by the scheduler: give the baton to another task because the current one waits for a lock / once-init that a
+ * parked task holds (returns after the baton came back) */
+extern void (*sim_wait_hook)(SimEnv*);
 
 #ifdef __cplusplus
 }
